@@ -1399,7 +1399,7 @@ done:
   return rv;
 }
 
-static void ares_detach_query(ares_query_t *query)
+void ares_detach_query(ares_query_t *query)
 {
   /* Remove the query from all the lists in which it is linked */
   ares_query_remove_from_conn(query);
@@ -1419,6 +1419,12 @@ static void end_query(ares_channel_t *channel, ares_server_t *server,
   }
 
   ares_metrics_record(query, server, status, dnsrec);
+
+  /* Detach the query from every list of the channel before invoking the
+   * callback.  The callback may call back into the library, e.g.
+   * ares_cancel(), which must not find (and complete and free) this query a
+   * second time. */
+  ares_detach_query(query);
 
   /* Invoke the callback. */
   query->callback(query->arg, status, query->timeouts, dnsrec);
